@@ -363,24 +363,30 @@ def gen_pkghist(rng):
                 'Sfus': rng.choice(VALS[3:7]), 'S0': rng.choice(VALS[:7]), 'cn': [rng.choice(HCN) for _ in range(3)], 'hv': rng.choice(HHV)}
     nc = rng.randint(2, 3)
     chems = [hspec() for _ in range(nc)]
+    ops = []
+    for _ in range(rng.randint(0, 2)):      # before any package exists the heat-capacity models may change too
+        i = rng.randrange(nc)
+        ops.append(['chem', rng.choice([['mutcn', i, [rng.choice(HCN) for _ in range(3)]], ['redefcn', i, [rng.choice(HCN) for _ in range(3)]],
+                                        ['copymodels', i, (i + 1) % nc, ['Cn', 'Hvap']], ['setsc', i, 'Tb', rng.choice(TBS)]])])
     first = rng.sample(range(nc), rng.randint(2, nc))
-    ops = [['pkg', ['new', first]]]
+    ops.append(['pkg', ['new', first]])
     pk = [list(first)]; ideal = [False]
     for _ in range(rng.randint(2, 6)):
         r = rng.random()
         if r < 0.6:
+            # the mixture keeps the H / S functor objects; an edit of the heat-capacity models after that would leave the discarded
+            # functors with old constants and new live integrals (outside the model), so only the other inputs are edited here
             i = rng.randrange(nc)
             r2 = rng.random()
-            if r2 < 0.45:
-                w = rng.choice(['Tm', 'Tb', 'Hfus', 'Sfus', 'S0'])
+            if r2 < 0.55:
+                w = rng.choice(['Tm', 'Tb', 'Hfus', 'Sfus', 'S0', 'Hfus', 'Sfus', 'S0'])
                 ops.append(['chem', ['setsc', i, w, rng.choice(TMS if w == 'Tm' else TBS if w == 'Tb' else VALS[1:7])]])
-            elif r2 < 0.6: ops.append(['chem', ['setpr', i, rng.choice('slg')]])
-            elif r2 < 0.7: ops.append(['chem', ['reset', i]])
-            elif r2 < 0.82: ops.append(['chem', ['mutcn', i, [rng.choice(HCN) for _ in range(3)]]])
+            elif r2 < 0.67: ops.append(['chem', ['setpr', i, rng.choice('slg')]])
+            elif r2 < 0.77: ops.append(['chem', ['reset', i]])
             elif r2 < 0.9: ops.append(['chem', ['muthv', i, rng.choice(HHV)]])
             else:
                 j = rng.choice([k for k in range(nc) if k != i])
-                ops.append(['chem', ['copymodels', i, j, rng.choice([['Hvap'], ['Cn'], ['Cn', 'Hvap']])]])
+                ops.append(['chem', ['copymodels', i, j, ['Hvap']]])
         else:
             i = rng.randrange(len(pk)); cur = pk[i]
             r2 = rng.random()
@@ -1146,27 +1152,40 @@ def oracle_pkghist(case):
     are the mole-weighted sums of what ITS chemicals report NOW, and a one-component flow has that component's entropy"""
     store, pstore, oks = run_pkghist_ops(case)
     T, P = 350., P_REF
+    REBUILDS = ('reset', 'setpr', 'muthv', 'copymodels', 'mutcn', 'redefcn', 'atstate')
+    created = [k for k, (kd, o) in enumerate(case['ops']) if kd == 'pkg']       # op index at which package #j was derived
+    def edits_after(j, cid):
+        """what was done to chemical cid after package j was derived: 'rebuild' if its functors were rebuilt, 'constant' if only
+        the S0 / Hfus / Sfus setters were used, None if nothing"""
+        kinds = set()
+        for kd, o in case['ops'][created[j] + 1:]:
+            if kd == 'chem' and o[1] == cid:
+                kinds.add('rebuild' if o[0] in REBUILDS or (o[0] == 'setsc' and o[2] in ('Tm', 'Tb')) else 'constant')
+        return 'rebuild' if 'rebuild' in kinds else ('constant' if kinds else None)
+    def describe():
+        return [o[0] if kd == 'pkg' else (f'{o[2]}=' if o[0] == 'setsc' else o[0]) + f'(#{o[1]})' for kd, o in case['ops']]
     for k, t in enumerate(pstore):
         own = t.chemicals.tuple
         n = len(own)
-        tag = f'[package #{k}, chemicals {[store.index(c) for c in own]}, after {[o[0] if kd == "pkg" else o[0] + ":" + str(o[2]) if o[0] == "setsc" else o[0] for kd, o in case["ops"]]}]'
-        mols = [[0.] * j + [2.] + [0.] * (n - j - 1) for j in range(n)] + [[1. + 0.5 * j for j in range(n)]]
         def pure(f, c, ph):
             return f(c)(T, P) if c.locked_state else f(c)(ph, T, P)
-        for phase in 'lgs':
-            try:
-                pH = [pure(lambda c: c.H, c, phase) for c in own]; pS = [pure(lambda c: c.S, c, phase) for c in own]
-                pC = [c.Cn(T) if c.locked_state else c.Cn(phase, T) for c in own]
-            except TypeError:
-                continue            # incomplete data for this phase: nothing to compare
-            for m in mols:
-                got, want = t.mixture.H(phase, m, T, P), sum(x * y for x, y in zip(m, pH))
-                if not close(got, want): return f'package_mixture_stale{tag}: mixture.H({phase!r}, {m}) = {got} but sum n_i H_i of its chemicals is now {want}'
-                got, want = t.mixture.Cn(phase, m, T), sum(x * y for x, y in zip(m, pC))
-                if not close(got, want): return f'package_mixture_stale{tag}: mixture.Cn({phase!r}, {m}) = {got} but sum n_i Cn_i of its chemicals is now {want}'
-                if sum(1 for x in m if x) == 1:
-                    got, want = t.mixture.S(phase, m, T, P), sum(x * y for x, y in zip(m, pS))
-                    if not close(got, want): return f'package_mixture_stale{tag}: mixture.S({phase!r}, {m}) = {got} for one component but n S_i is now {want}'
+        for j, c in enumerate(own):
+            m = [0.] * n; m[j] = 2.
+            cid = store.index(c)
+            for phase in 'lgs':
+                try:
+                    wantH, wantS = 2. * pure(lambda c: c.H, c, phase), 2. * pure(lambda c: c.S, c, phase)
+                    wantC = 2. * (c.Cn(T) if c.locked_state else c.Cn(phase, T))
+                except TypeError:
+                    continue            # incomplete data for this phase: nothing to compare
+                got = {'H': t.mixture.H(phase, m, T, P), 'S': t.mixture.S(phase, m, T, P), 'Cn': t.mixture.Cn(phase, m, T)}
+                for name, want in (('H', wantH), ('S', wantS), ('Cn', wantC)):
+                    if not close(got[name], want):
+                        why = edits_after(k, cid)
+                        key = {'rebuild': 'package_mixture_stale_after_functor_rebuild', 'constant': 'package_mixture_stale_after_constant_setter',
+                               None: 'package_mixture_wrong'}[why]
+                        return (f'{key}: package #{k} (chemicals {[store.index(x) for x in own]}) after {describe()}: mixture.{name}({phase!r}, {m}) = {got[name]} '
+                                f'but 2 x {name} of its chemical #{cid} is now {want}')
     return None
 
 
@@ -1304,6 +1323,8 @@ def search_cases(rng, tier):
         out.append(gen_hist(rng))
         out.append(gen_pkg(rng))
         out.append(gen_pkghist(rng))
+        w, v = rng.choice([('S0', 40650.), ('Hfus', 6010.5), ('Sfus', 12.25)])
+        out.append({'type': 'pkghist', 'chems': [_HA, _HB], 'ops': [['pkg', ['new', [0, 1]]], ['chem', ['setsc', rng.randrange(2), w, v]]], 'obs': [], 'ln': [0., 1.]})
     for k in range(40 if tier == 'quick' else 400):
         spec = gen_spec(rng, complete=True)
         spec['kind'], spec['sp'] = 'handle', None
@@ -1343,10 +1364,15 @@ CORPUS = [
     # a package exists, THEN a chemical is edited (each kind of setter / reset), then another package is derived
     {'type': 'pkghist', 'chems': [_HA, _HB], 'ops': [['pkg', ['new', [0, 1]]], ['chem', ['setsc', 0, 'Tb', 400.5]], ['chem', ['setpr', 1, 'l']],
                                                    ['pkg', ['subset', 0, [1, 0]]], ['chem', ['setsc', 0, 'S0', 40650.]], ['chem', ['setsc', 1, 'Hfus', 6010.5]],
-                                                   ['chem', ['setsc', 1, 'Sfus', 12.25]], ['pkg', ['ideal', 1]], ['chem', ['mutcn', 1, [24., 24., 24.]]],
-                                                   ['chem', ['copymodels', 0, 1, ['Hvap']]]],
+                                                   ['chem', ['setsc', 1, 'Sfus', 12.25]], ['pkg', ['ideal', 1]], ['chem', ['muthv', 1, 30000.]],
+                                                   ['chem', ['copymodels', 0, 1, ['Hvap']]], ['pkg', ['subset', 0, [0, 1]]]],
      'obs': [['H', 0, 'g', [1., 2.], 400., P_REF], ['S', 0, 'l', [2., 0.], 300., P_REF], ['S', 0, 's', [0., 1.], 250., 2 * P_REF], ['Cn', 0, 'l', [1., 1.], 300., P_REF],
-             ['H', 1, 's', [1., 2.], 250., P_REF], ['S', 1, 'g', [1., 0.], 400., P_REF], ['H', 2, 'l', [0.5, 0.25], 300., P_REF]], 'ln': [0., 1.]},
+             ['H', 1, 's', [1., 2.], 250., P_REF], ['S', 1, 'g', [1., 0.], 400., P_REF], ['H', 2, 'l', [0.5, 0.25], 300., P_REF],
+             ['H', 3, 'g', [1., 2.], 400., P_REF], ['S', 3, 's', [0., 1.], 250., P_REF]], 'ln': [0., 1.]},
+    # only the S0 / Hfus / Sfus setters after the package: they patch the functors in place, the package must follow
+    {'type': 'pkghist', 'chems': [_HA, _HB], 'ops': [['pkg', ['new', [1, 0]]], ['chem', ['setsc', 0, 'S0', 40650.]], ['chem', ['setsc', 1, 'Hfus', 6010.5]],
+                                                   ['chem', ['setsc', 1, 'Sfus', 12.25]], ['chem', ['setsc', 0, 'Hfus', 0.5]], ['pkg', ['ideal', 0]]],
+     'obs': [['S', 0, 'l', [0., 2.], 300., P_REF], ['S', 0, 's', [1., 1.], 250., P_REF], ['H', 0, 's', [2., 1.], 250., P_REF], ['S', 1, 'g', [1., 3.], 400., 2 * P_REF]], 'ln': [0., 1.]},
     # packages: the same chemicals in another order, strict subsets, extension, ideal()
     {'type': 'pkg', 'chems': _PK, 'ops': [['new', [0, 1, 2]], ['subset', 0, [2, 0, 1]], ['subset', 1, [1, 2]], ['extended', 0, [3, 1]],
                                        ['ideal', 1], ['subset', 4, [0, 1, 2]]],
@@ -1366,6 +1392,8 @@ CORPUS = [
      'obs': [['S', 'l', [1., 1.], 350., P_REF], ['S', 'l', [1., 0.], 350., P_REF], ['S', 'l', [0., 1.], 350., P_REF]], 'ln': [1., 1.]},
 ]
 WITNESSES = [
+    {'key': 'package_mixture_stale_after_functor_rebuild',
+     'case': {'type': 'pkghist', 'chems': [_HA, _HB], 'ops': [['pkg', ['new', [0, 1]]], ['chem', ['setpr', 0, 'g']]], 'obs': [], 'ln': [0., 1.]}},
     {'key': 'sfus_not_refreshed_by_setters',
      'case': {'type': 'hist', 'check': 'sfus_follows_setters', 'chems': [_HA], 'ops': [['setsc', 0, 'Tm', 250.]], 'queries': _HQ, 'ln': [0., 1.]}},
     {'key': 'ideal_entropy_mixing_term',
